@@ -836,12 +836,18 @@ func judgeNotifications(r *vh.Run, sp caseSpec, label string, cs *caseState, con
 
 func main() {
 	kit.MaybeServeStdioChild()
+	if vh.ChildRole() == panicRole {
+		panicChild()
+		return
+	}
 	kit.Silence()
 	r := vh.NewRun("C15", "exploration")
 	reqsPerCase, sessPerCase = r.Pick(8, 16), r.Pick(2, 4)
 	acquireBaselines(r)
 	cases := buildCases(r)
 	shared := buildSharedCases(r)
+	values := buildValueCases(r)
+	panics := buildPanicCases(r)
 	sampleStride = len(cases)/4 + 1
 	workers := 8
 	ch := make(chan func())
@@ -854,6 +860,14 @@ func main() {
 				job()
 			}
 		}()
+	}
+	for _, vc := range values {
+		vc := vc
+		ch <- func() { runValueCase(r, vc) }
+	}
+	for _, pc := range panics {
+		pc := pc
+		ch <- func() { runPanicCase(r, pc) }
 	}
 	for _, sp := range shared {
 		sp := sp
@@ -910,6 +924,8 @@ func main() {
 		r.Require(r.Counter(fmt.Sprintf("shared_cases_held_concurrent/%s", k)) > 0, "scenario shared: no concurrently constructed %s servers judged", k)
 	}
 
+	requireValues(r)
+
 	r.Finish("chains over {pass P, modify-request Q, modify-result R, short-circuit result S, short-circuit JSON-RPC error E, fail F}: thorough = all 1555 of length 0..4, quick = all 43 of length <= 2 plus 150 seeded of length 3..4; "+
 		"x server kinds {S-json, S-sse, L-sse} x methods {tools/call with every option form; tools/list, ping, prompts/get with rotating forms} x option forms {single WithMiddleware(a,b,..), one option per middleware, split 2+rest; none/empty for length 0} (WithSSEMiddleware on the legacy server); "+
 		"every chain also with 2 methods off the dispatch table (logging/setLevel, x-vendor/do, \" \", Tools/Call, tools/call/, rpc.discover, tools) and 2 unmodelled built-in ones (completion/complete, resources/subscribe|unsubscribe|list|read|templates/list, prompts/list), rotating; "+
@@ -926,5 +942,9 @@ func main() {
 			"interleavings are sampled (gate release), not enumerated",
 			"scenario shared: the caller changes a slice only after the construction of every server that was given an option made from it before (what a server constructed from an option value whose slice changed between making the option and constructing the server is configured with is left open by the statement)",
 			"scenario shared: every middleware value appears at most once in one server's chain",
+			"scenario values: 'carrying the message' = the error message of the answer contains err.Error() of the middleware's error; a returned value is compared as the JSON value encoding/json makes of it; an envelope (JSONRPCResponse, JSONRPCError by value) may arrive wrapped as a result or as it is",
+			"scenario values: for nil / typed-nil results only 'answered once under the request's id' is judged; for values that cannot be encoded, a typed-nil *JSONRPCError and an error object without id nothing is judged (values_open_outcome/* counts what happened)",
+			"scenario values: the core's answer class for x-vendor/do and resources/list on the stateless / session-less kinds is taken from the reference answers of S-json / S-sse",
+			"scenario values, legacy SSE: an answer missing at the 30 s watchdog is a violation only when the request's trace is complete and a ping posted afterwards on the same session was answered",
 		})
 }
